@@ -278,6 +278,26 @@ def check_string(ctx, config, rule):
                             ('Extend<std::string::String>>', "String::<'bump>::push_str", 'push_str'), ('Extend<alloc::string::String>>', "String::<'bump>::push_str", 'push_str'), ("Cow<'a, str>>>", "String::<'bump>::push_str", 'push_str')):
         for b in impls(db, 'string::String', 'collect::Extend', 'extend', idp):
             extend_loop(C, ctx, config, b, 'String::extend(%s)' % idp.split('<', 1)[1].rstrip('>'), sink, what)
+    for b in impls(db, 'string::String', 'clone::Clone', 'clone_from'):
+        I, r = arena.run_fn(ctx, b['id'], config)
+        vecof = lambda p: ('addr', ('fld', ('deref', p), "collections::string::String.vec"))
+        cf = own_calls(r, trait='Clone::clone_from')
+        cl = own_calls(r, trait='Clone::clone')
+        st = [e for e in r.events if e.is_own() and e.kind == 'store' and e.lv in (('deref', SELF), ('fld', ('deref', SELF), "collections::string::String.vec"))]
+        okv = (len(cf) == 1 and cf[0].args == [vecof(SELF), vecof(('param', 2))]) or \
+              (len(cl) == 1 and cl[0].args[0] in (('param', 2), vecof(('param', 2))) and len(st) == 1 and cl[0].ret in subterms(st[0].val) or (len(cl) == 1 and len(st) == 1 and st[0].val == cl[0].ret))
+        C.check('String::clone_from', 'self takes the contents of source (self.vec.clone_from(&source.vec) or *self = source.clone())', okv, '', b.get('span'))
+    for b in impls(db, 'string::String', 'collect::Extend', 'extend', "Extend<&'a char>>"):
+        I, r = arena.run_fn(ctx, b['id'], config)
+        ex = own_calls(r, trait='Extend::extend')
+        okv = len(ex) == 1 and ex[0].args[0] == SELF and ex[0].args[1][0] == 'call' and ex[0].args[1][1].endswith('::cloned') and ex[0].args[1][2][0][0] == 'call' and ex[0].args[1][2][0][2] == (('param', 2),)
+        if not okv and not ex:
+            # the loop written out: every item of the caller's iterator is pushed (dereferenced) on self
+            pu = own_calls(r, "String::<'bump>::push")
+            nx = [e for e in own_calls(r) if (e.extra.get('trait_path') or e.callee or '').endswith('Iterator::next')]
+            okv = len(pu) == 1 and pu[0].args[0] == SELF and len(nx) == 1 and any(item_of_next(x) for x in subterms(pu[0].args[1])) \
+                and any(bid == pu[0].fn and pu[0].block in I.cfg(I.bodies[bid]).loops().get(h, ()) for (bid, h) in r.loops if bid in I.bodies)
+        C.check('String::extend(&char)', 'forwards to extend(iter.into_iter().cloned())', okv, '', b.get('span'))
     for name, sink in (('write_str', '::push_str'), ('write_char', "String::<'bump>::push")):
         for b in impls(db, 'string::String', 'fmt::Write', name):
             I, r = arena.run_fn(ctx, b['id'], config)
